@@ -4,7 +4,7 @@
    signals with a value table, the kind only; the full statement is
    Acme.C10.Proofs.import_signal_faithful_full_statement. *)
 From Coq Require Import String ZArith List.
-From Acme.C10 Require Import DbcDoc BusModel Import Bits BitsProofs Proofs ProofsEnum ProofsLayout ProofsFaithful ProofsMux ProofsExtMux ProofsDecode.
+From Acme.C10 Require Import DbcDoc BusModel Import Bits BitsProofs Proofs ProofsEnum ProofsLayout ProofsFaithful ProofsMux ProofsExtMux ProofsDecode ProofsIds.
 Import ListNotations.
 Open Scope Z_scope.
 
@@ -129,3 +129,13 @@ Theorem import_decode_dbc_imported : forall d b, import d = Ok b ->
     (d_messages d) (b_messages b).
 Proof. exact ProofsDecode.import_decode_dbc_imported. Qed.
 Print Assumptions import_decode_dbc_imported.
+
+(* every imported message, every multiplexing depth: signal names distinct, signal ids distinct, and every
+   imported signal carries the position index (in payload order) and the name of a signal of the file *)
+Theorem import_names_ids_unique : forall d b, import d = Ok b ->
+  Forall2 (fun dm m =>
+      NoDup (map s_name (m_signals m)) /\ NoDup (map s_id (m_signals m)) /\
+      forall s, In s (m_signals m) -> exists ds, In (s_id s, ds) (index_from 0 (sorted_signals dm)) /\ s_name s = ds_name ds)
+    (d_messages d) (b_messages b).
+Proof. exact ProofsIds.import_names_ids_unique. Qed.
+Print Assumptions import_names_ids_unique.
